@@ -198,6 +198,8 @@ def step (st : St) (cmd : String) (args : List String) : St × String :=
   -- the concrete fog walk of `Model/Walk.lean`, one whole step at a time
   | "wnew", [] => ({ st with walk := ⟨Fog.init, [], []⟩ }, "ok")
   | "wcnew", [] => ({ st with walk := { st.walk with cache := [] } }, "ok")
+  -- a new walk (fresh fog, nothing met yet) that keeps the frontier cache of the previous one
+  | "wrefog", [] => ({ st with walk := { st.walk with fog := Fog.init, met := [] } }, "ok")
   | "wcdel", [p] =>
     match parsePath p with
     | some p => ({ st with walk := { st.walk with cache := Fog.Frontier.delete st.walk.cache p } }, "ok")
